@@ -1,3 +1,5 @@
+import Secp.Proofs.DriversMisc
+import Secp.Proofs.DriversSign
 import Secp.Proofs.Ecdsa
 import Secp.Props.C03
 import Secp.Proofs.Ecdh
@@ -65,5 +67,53 @@ theorem signRFC6979_eq_spec_unconditional (d : Nat) (h : Bytes) (hd : d < N) (fu
     `contracts_justified`) this is what makes the value-level model above faithful to the limb code. -/
 theorem sign_field_arithmetic_exact :
     Secp.Proofs.Slices.entriesOK ["github.com/ModChain/secp256k1.sign", "github.com/ModChain/secp256k1.fieldToModNScalar"] = true := by decide +kernel
+
+/-! ### Regenerated drivers (tools/gotr pass T8)
+
+`Secp.Gen.Drivers` is REGENERATED from /repo on every check run: the Go functions below translated
+statement by statement into Lean terms over the value-level primitives.  The theorems say the
+regenerated definitions EQUAL the hand-written models the theorems above are about, so a change to
+one of these functions either leaves the equality provable (then the property theorems still speak
+about the code) or breaks this file.  `DR` = ok | err | panic | fuel (retry loop out of fuel) |
+undef (an arithmetic assumption of the translation failed; shown never to occur). -/
+
+section
+-- the statements are re-checked against the proved ones up to the matchers only: keep the big definitions folded
+attribute [local irreducible] signM signRFC6979Aux signRFC6979M Secp.Gen.Drivers.sign Secp.Gen.Drivers.signRFC6979
+  Secp.Gen.Drivers.signRFC6979_loop Secp.Gen.Drivers.signCompact exportCompactM
+
+/-- `sign` (signature.go) regenerated = `signM` -/
+theorem sign_regenerated (d k : Nat) (h : Bytes) :
+    Secp.Gen.Drivers.sign d k h = (match signM d k h with | some x => DR.ok x | none => DR.err ()) :=
+  Secp.Proofs.DriversSign.sign_regenerated d k h
+
+/-- `signRFC6979` (the retry loop with the RFC 6979 iteration counter) regenerated = `signRFC6979M` -/
+theorem signRFC6979_regenerated (d : Nat) (h : Bytes) :
+    Secp.Gen.Drivers.signRFC6979 d h = (match signRFC6979M d h with | some x => DR.ok x | none => DR.fuel) :=
+  Secp.Proofs.DriversSign.signRFC6979_regenerated d h
+
+/-- the loop for any fuel and starting iteration -/
+theorem signRFC6979_loop_regenerated (d : Nat) (h : Bytes) (fuel iter : Nat) (hi : iter + fuel < 2^32) :
+    Secp.Gen.Drivers.signRFC6979_loop d h (be32 d) fuel iter =
+      (match signRFC6979Aux hmacSha256 d h fuel iter with | some x => DR.ok x | none => DR.fuel) :=
+  Secp.Proofs.DriversSign.signRFC6979_loop_regenerated d h fuel iter hi
+
+/-- `fieldToModNScalar` regenerated: reduction of a field value below 2^256 into a scalar with its overflow bit -/
+theorem fieldToModNScalar_regenerated (v : Nat) (hv : v < 2^256) :
+    Secp.Gen.Drivers.fieldToModNScalar v = (if v ≥ N then v - N else v, if v ≥ N then 1 else 0) :=
+  Secp.Proofs.DriversSign.fieldToModNScalar_eq v hv
+
+/-- `SignCompact` regenerated = the compact export of the RFC 6979 signature with header 27 (+4 when compressed) -/
+theorem signCompact_regenerated (d : Nat) (h : Bytes) (c : Bool) :
+    Secp.Gen.Drivers.signCompact d h c = (match Secp.Gen.Drivers.signRFC6979 d h with
+      | .ok (r, s, v) => DR.ok (exportCompactM r s v true (27 + (if c then 4 else 0)))
+      | .err e => DR.err e | .panic => DR.panic | .fuel => DR.fuel | .undef => DR.undef) :=
+  Secp.Proofs.DriversMisc.signCompact_regenerated d h c
+end
+
+/-- `PrivateKey.PubKey` regenerated = the affine base-point multiple -/
+theorem pubKey_regenerated (d : Nat) :
+    Secp.Gen.Drivers.pubKey d = ((toAffineJ (scalarBaseMultNC d)).1, (toAffineJ (scalarBaseMultNC d)).2.1) :=
+  Secp.Proofs.DriversMisc.pubKey_regenerated d
 
 end Secp.Props.C01
